@@ -235,3 +235,39 @@ fn c10_p2s_wrong_unit_update_panics() {
     let _ = s.update();
     kani::cover!(true, "unreach: returned normally");
 }
+
+//@ob fn="<PositionToState<G,E> as Updatable>::update" at=src/streams/converters.rs:384 prop=C10 clause="how the computed terms are combined (Quantity / replaced by a recording stand-in): from the second sample on the stored velocity is the FIRST quotient the code computed ((x_new - x_old)/dt); from the third on the acceleration is the SECOND quotient ((v_new - v_old)/dt); no multiplication; position and time are the sample's"
+#[kani::proof]
+#[kani::stub(<Quantity as Mul<Quantity>>::mul, rec_q_mul)]
+#[kani::stub(<Quantity as Div<Quantity>>::div, rec_q_div)]
+fn c10_p2s_terms_combined() {
+    let d: Datum<Quantity> = kani::any();
+    let mut inp = Scripted::new(Ok(Some(d)));
+    let mut s = any_st(rf(&mut inp));
+    kani::assume(inv(&s) && pre_ok(&s, &Ok(Some(d))));
+    kani::assume(s.update.is_some());
+    let had_vel = match &s.update { Some(u0) => u0.update_1.is_some(), None => false };
+    rec_reset();
+    let r = s.update();
+    assert!(r == Ok(()));
+    match &s.update {
+        Some(u0) => {
+            assert!(u0.last_update_time == d.time && u0.pos.beq(&d.value));
+            match &u0.update_1 {
+                Some(u1) => {
+                    assert!(fsame(u1.vel.value, rec_div(0)));
+                    if had_vel {
+                        assert!(rec_counts() == (2, 0));
+                        match u1.update_2 { Some(a) => assert!(fsame(a.value, rec_div(1))), None => assert!(false) }
+                    } else {
+                        assert!(rec_counts() == (1, 0));
+                        assert!(u1.update_2.is_none());
+                    }
+                }
+                None => assert!(false),
+            }
+        }
+        None => assert!(false),
+    }
+    reach!();
+}
